@@ -3,6 +3,8 @@ virtual calls survive overriding (M4 = X5 restricted to network.py)."""
 from __future__ import annotations
 
 import ast
+import math
+import re
 
 from .pymodel import Program
 from .cymodel import CyProgram, X, pp, walk, names_in
@@ -32,14 +34,27 @@ def m1(run: Run, cy: CyProgram):
             while e.k == "cast":
                 e = e.a[1]
             return e
+        def numerator(e):
+            """(counter name, constant multiplier) of `counter` / `c * counter`"""
+            e = strip(e)
+            if e.k == "name":
+                return e.a[0], 1
+            if e.k == "bin" and e.a[0] == "*":
+                l, r_ = strip(e.a[1]), strip(e.a[2])
+                for c_, n_ in ((l, r_), (r_, l)):
+                    if c_.k == "num" and n_.k == "name" and \
+                            float(c_.a[0]) == int(float(c_.a[0])):
+                        return n_.a[0], int(float(c_.a[0]))
+            return None
         norm = None
         for st in walk(f.body):
             if isinstance(st, X) and st.k == "assign" and strip(st.a[1]).k == "bin" and \
-                    strip(st.a[1]).a[0] == "/" and strip(strip(st.a[1]).a[1]).k == "name":
+                    strip(st.a[1]).a[0] == "/" and \
+                    numerator(strip(st.a[1]).a[1]) is not None:
                 norm = st
         if norm is None:
             raise AnalysisError(f"{f.where}: normalisation statement not found")
-        counter = strip(strip(norm.a[1]).a[1]).a[0]
+        counter, mult = numerator(strip(norm.a[1]).a[1])
         sites = [s for s in count_sites(f.body) if s.counter == counter]
         if len(sites) != 1:
             raise AnalysisError(f"{f.where}: expected one `{counter} += 1` in {f.name}, "
@@ -56,14 +71,38 @@ def m1(run: Run, cy: CyProgram):
         srcs = [src for (src, lv, it) in roles.values() if src != "range"]
         nb_src = max(set(srcs), key=srcs.count) if srcs else None
         nb_roles = sorted(n for n, (src, lv, it) in roles.items() if src == nb_src)
-        ranges = {roles[n][2] for n in nb_roles}
+        # two enumerations of the neighbour tuples are recognised: all ordered
+        # tuples (every role over range(<degree>)) or every subset once (role k
+        # over range(<loop variable of role k-1> + 1, <degree>), the count then
+        # multiplied by r!)
+        lvorder = [v for v, _ in s.loops]
+        by_pos = sorted(nb_roles, key=lambda n: lvorder.index(roles[n][1])
+                        if roles[n][1] in lvorder else 99)
+        its = [(roles[n][2] or "").replace(" ", "") for n in by_pos]
+        mode = "tuples"
+        cands = set()
+        for k_, it_ in enumerate(its):
+            m_ = re.fullmatch(r"range\((\w+)\)", it_)
+            if m_:
+                cands.add(m_.group(1))
+                continue
+            prev = roles[by_pos[k_ - 1]][1] if k_ else None
+            m_ = re.fullmatch(r"range\(\(?(\w+)\+1\)?,(\w+)\)", it_) or \
+                re.fullmatch(r"range\(\(?1\+(\w+)\)?,(\w+)\)", it_)
+            if m_ and k_ and m_.group(1) == prev:
+                cands.add(m_.group(2))
+                mode = "subsets"
+                continue
+            cands.add(None)
+        if mode == "subsets" and not all("," in it_ for it_ in its[1:]):
+            cands.add(None)              # mixed enumeration
+        ranges = cands
         # the common range bound must be the node's degree: a local bound to
         # <degree parameter>[<outer loop variable>]
         dname = None
         if len(ranges) == 1 and None not in ranges:
-            r0 = next(iter(ranges)).replace(" ", "")
-            if r0.startswith("range(") and r0.endswith(")") and "," not in r0:
-                cand = r0[len("range("):-1]
+            if True:
+                cand = next(iter(ranges))
                 bnd = s.bindings.get(cand)
                 degp = [n for n, t in f.args if t.kind in ("buffer", "memview")
                         and t.ndim == 1]
@@ -101,13 +140,17 @@ def m1(run: Run, cy: CyProgram):
         d = dname or "degree_i"
         facs = sorted(pp(x).replace(" ", "") for x in product_factors(strip(norm.a[1]).a[2]))
         wantf = sorted([d] + [f"({d}-{t})" for t in range(1, r)])
-        okn = facs == wantf
+        wantm = math.factorial(r) if mode == "subsets" else 1
+        okn = facs == wantf and mult == wantm
         run.oblige("M1", f"{f.name}:normaliser", okn, sample={
-            "where": f"{f.module.relpath}:{norm.line}", "factors": facs})
+            "where": f"{f.module.relpath}:{norm.line}", "factors": facs,
+            "enumeration": mode, "multiplier": mult})
         if not okn:
             run.add("M1", f"{f.name}/normaliser", f"{f.module.relpath}:{norm.line}",
-                    f"{f.name} normalises the count of ordered {r}-tuples by {facs}, "
-                    f"expected the falling factorial {wantf}")
+                    f"{f.name} normalises {mult} x the count of "
+                    f"{'subsets' if mode == 'subsets' else 'ordered tuples'} of {r} "
+                    f"neighbours by {facs}, expected {wantm} x count over the falling "
+                    f"factorial {wantf}")
         # the order constant must match the number of roles
         order = f.locals.get("order")
         if order is not None and order[1] is not None:
@@ -242,6 +285,196 @@ def m5(run: Run, prog: Program):
     run.floor("M5 divisions scanned (core)", n, 100)
 
 
+# ---------------------------------------------------------------------------
+# M7: the direction convention  A[i, j] = link i -> j
+
+_AXIS_OF = {"in": 0, "out": 1}
+
+
+def _fold(node, consts: dict):
+    """Copy of a function body with names / self attributes of `consts`
+    replaced by constants, comparisons between constants evaluated, and
+    if / conditional expressions / boolean operators with a constant test
+    pruned."""
+    import copy
+
+    def const(e):
+        return isinstance(e, ast.Constant)
+
+    class F(ast.NodeTransformer):
+        def visit_Name(self, n):
+            if isinstance(n.ctx, ast.Load) and n.id in consts:
+                return ast.copy_location(ast.Constant(consts[n.id]), n)
+            return n
+
+        def visit_Attribute(self, n):
+            self.generic_visit(n)
+            key = ast.unparse(n)
+            if isinstance(n.ctx, ast.Load) and key in consts:
+                return ast.copy_location(ast.Constant(consts[key]), n)
+            return n
+
+        def visit_Compare(self, n):
+            self.generic_visit(n)
+            if len(n.ops) == 1 and const(n.left) and const(n.comparators[0]):
+                a, b = n.left.value, n.comparators[0].value
+                op = n.ops[0]
+                if isinstance(op, ast.Eq):
+                    return ast.copy_location(ast.Constant(a == b), n)
+                if isinstance(op, ast.NotEq):
+                    return ast.copy_location(ast.Constant(a != b), n)
+            if len(n.ops) == 1 and const(n.left) and isinstance(
+                    n.comparators[0], (ast.Tuple, ast.List, ast.Set)) and all(
+                    const(e) for e in n.comparators[0].elts):
+                vals = [e.value for e in n.comparators[0].elts]
+                if isinstance(n.ops[0], ast.In):
+                    return ast.copy_location(ast.Constant(n.left.value in vals), n)
+                if isinstance(n.ops[0], ast.NotIn):
+                    return ast.copy_location(ast.Constant(n.left.value not in vals), n)
+            return n
+
+        def visit_UnaryOp(self, n):
+            self.generic_visit(n)
+            if isinstance(n.op, ast.Not) and const(n.operand):
+                return ast.copy_location(ast.Constant(not n.operand.value), n)
+            return n
+
+        def visit_BoolOp(self, n):
+            self.generic_visit(n)
+            is_and = isinstance(n.op, ast.And)
+            vals = []
+            for v in n.values:
+                if const(v):
+                    if bool(v.value) != is_and:      # absorbing element
+                        return ast.copy_location(ast.Constant(not is_and), n)
+                    continue                          # neutral element
+                vals.append(v)
+            if not vals:
+                return ast.copy_location(ast.Constant(is_and), n)
+            if len(vals) == 1:
+                return vals[0]
+            n.values = vals
+            return n
+
+        def visit_IfExp(self, n):
+            self.generic_visit(n)
+            if const(n.test):
+                return n.body if n.test.value else n.orelse
+            return n
+
+        def visit_If(self, n):
+            n.test = self.visit(n.test)
+            if const(n.test):
+                out = []
+                for st in (n.body if n.test.value else n.orelse):
+                    r = self.visit(st)
+                    out.extend(r if isinstance(r, list) else [r] if r is not None else [])
+                return out or [ast.copy_location(ast.Pass(), n)]
+            self.generic_visit(n)
+            return n
+    return F().visit(copy.deepcopy(node))
+
+
+def _axis_sums(fnode):
+    """[(node, summed expression, axis constant | None)] for `x.sum(axis=k)` /
+    `np.sum(x, axis=k)` in fnode, locals inlined."""
+    from .idioms import inline_locals
+    out = []
+    for c in ast.walk(fnode):
+        if not (isinstance(c, ast.Call) and isinstance(c.func, ast.Attribute)
+                and c.func.attr == "sum"):
+            continue
+        kw = {k.arg: k.value for k in c.keywords}
+        if ast.unparse(c.func.value) in ("np", "numpy"):
+            if not c.args:
+                continue
+            x = c.args[0]
+            ax = kw.get("axis", c.args[1] if len(c.args) > 1 else None)
+        else:
+            x = c.func.value
+            ax = kw.get("axis", c.args[0] if c.args else None)
+        if ax is None:
+            continue
+        ax = inline_locals(fnode, ax)
+        x = inline_locals(fnode, x)
+        k = ax.value if isinstance(ax, ast.Constant) and isinstance(ax.value, int) else None
+        out.append((c, x, k))
+    return out
+
+
+def _transposed(x) -> bool:
+    s = ast.unparse(x)
+    return bool(re.search(r"\.T\b|transpose|swapaxes", s))
+
+
+def m7(run: Run, prog: Program):
+    """Entry [i, j] of every adjacency / link-attribute matrix is the link from
+    i to j: in-degrees and in-strengths add up a column (axis 0), out-degrees a
+    row (axis 1).  Decided (a) in every method called *in/out-degree and (b) in
+    methods that select the direction by a "in"/"out" string parameter, after
+    folding that parameter to either constant."""
+    n = 0
+    for cname in ("Network", "InteractingNetworks"):
+        ci = prog.classes.get(cname)
+        if ci is None:
+            raise AnalysisError(f"class {cname} vanished")
+        for mname, m in sorted(ci.methods.items()):
+            d = "in" if "indegree" in mname else "out" if "outdegree" in mname else None
+            if d is None or "distribution" in mname or "cdf" in mname:
+                continue
+            for c, x, k in _axis_sums(m.node):
+                if k is None or _transposed(x):
+                    run.unknowns.append(f"M7: {m.qualname}: axis of `{ast.unparse(c)[:60]}` "
+                                        f"not decided (computed axis or transposed operand)")
+                    continue
+                n += 1
+                ok = k == _AXIS_OF[d]
+                run.oblige("M7", f"{m.qualname}:axis@{ast.unparse(x)[:40]}", ok, sample={
+                    "where": f"{m.module.relpath}:{c.lineno}", "axis": k})
+                if not ok:
+                    run.add("M7", f"{m.qualname}/axis", f"{m.module.relpath}:{c.lineno}",
+                            f"{m.qualname} sums `{ast.unparse(x)[:60]}` over axis {k}: with "
+                            f"entry [i,j] = link i->j the {d}-degree/strength of a node is "
+                            f"the sum over axis {_AXIS_OF[d]}")
+    run.floor("M7 in/out-degree axis sites", n, 8)
+    # (b) direction selected by a string parameter
+    k2 = 0
+    for ci in prog.classes.values():
+        if not ci.module.relpath.endswith(("core/network.py",
+                                           "core/interacting_networks.py")):
+            continue
+        for mname, m in sorted(ci.methods.items()):
+            if "direction" not in m.params:
+                continue
+            sn = m.params[0]
+            for d, other in (("in", "out"), ("out", "in")):
+                body = _fold(m.node, {"direction": d, f"{sn}.directed": True})
+                k2 += 1
+                calls = {c.func.attr for c in ast.walk(body)
+                         if isinstance(c, ast.Call) and isinstance(c.func, ast.Attribute)
+                         and isinstance(c.func.value, ast.Name) and c.func.value.id == sn}
+                wrong = sorted(x for x in calls if f"{other}degree" in x
+                               or f"{other}strength" in x)
+                ok = not wrong
+                bad_axes = []
+                for c, x, k in _axis_sums(body):
+                    if k is None or _transposed(x):
+                        continue
+                    if k != _AXIS_OF[d]:
+                        bad_axes.append((ast.unparse(x)[:50], k))
+                        ok = False
+                run.oblige("M7", f"{m.qualname}:direction={d}", ok, sample={
+                    "where": m.where, "self_calls": sorted(calls)[:8]})
+                if not ok:
+                    run.add("M7", f"{m.qualname}/direction-{d}", m.where,
+                            f"{m.qualname}(direction=\"{d}\") on a directed network uses "
+                            f"{wrong or bad_axes}: with entry [i,j] = link i->j the "
+                            f"{d}-degree is the sum over axis {_AXIS_OF[d]} "
+                            f"({d}degree()), not over axis {_AXIS_OF[other]}")
+    run.floor("M7 direction-parameter methods", k2, 2)
+
+
+
 def check(run: Run, prog: Program, cy: CyProgram, sites):
     run.rule("M5", "pair-count normalisers keep both factors in the denominator "
              "(no `x / D * (D - 1)`)")
@@ -251,6 +484,9 @@ def check(run: Run, prog: Program, cy: CyProgram, sites):
              "dtype/rank their signature demands")
     run.rule("M4", "a `self.m()` call in an inherited Network method is accepted by "
              "every override of m in subclasses that inherit the caller")
+    run.rule("M7", "direction convention A[i,j] = link i->j: in-degree/strength sums "
+             "axis 0, out-degree axis 1, also behind a direction=\"in\"/\"out\" "
+             "parameter (folded to either constant)")
     run.explanation = (
         "Structural necessary conditions of C03: completeness of the motif "
         "(clique) counting kernels derived from the kernels' own loop structure, "
@@ -271,5 +507,6 @@ def check(run: Run, prog: Program, cy: CyProgram, sites):
                     f"kernel {f.name} declares `{name}` as {detail['declared']} but "
                     f"allocates it with {detail['init']} ({verdict})")
     m5(run, prog)
+    m7(run, prog)
     nm4 = m4(run, prog, "M4", "core/network.py")
     run.floor("override pairs checked (repo-wide)", nm4, 100, hard=True)
